@@ -51,13 +51,21 @@ def evs(res, *kinds):
     return [e for e in res.events if e["kind"] in kinds]
 
 
+_EMPTY_KEY = __import__("re").compile(r"^(Eq:len\*?\[[^\]]+\]|nonempty\?.+)$")
+
+
 def is_empty_path(res) -> bool:
-    """Paths on which there is legitimately nothing to differentiate / aggregate (empty key collections)."""
+    """Paths on which there is legitimately nothing to differentiate / aggregate: some test decided that a key collection
+    (or a dictionary built over one) is empty. Recognised by the question the test asks, not by where it is written."""
     for e in res.events:
-        if e["kind"] == "decision" and e.get("outcome") is True and not e.get("forced"):
-            t = e["test"].replace(" ", "")
-            if t.endswith("==0") and e["function"].split(".")[-1] in ("_differentiate", "_aggregate_group"):
-                return True
+        if e["kind"] != "decision" or e.get("outcome") is None or e.get("forced"):
+            continue
+        k = e.get("key") or ""
+        if not _EMPTY_KEY.match(k) or "(&:" in k:
+            continue
+        truth = bool(e["outcome"]) ^ bool(e.get("key_neg"))
+        if (k.startswith("Eq:len") and truth) or (k.startswith("nonempty?") and not truth):
+            return True
     return False
 
 
